@@ -65,7 +65,7 @@ def check(rep):
     from gbigsmiles import forcefield_helper as ffh
     from rdkit import Chem
 
-    coq = fw.coq_check("C20", ["SrcFF"])
+    coq = fw.coq_check("C20", ["SrcFF", "SrcFFSel"])
     quick = rep.tier == "quick"
     rnd = random.Random(rep.seed + 20)
     F = make_files(os.path.join(fw.BUILD, "ff"))
